@@ -458,8 +458,34 @@ def _producer_sig(t):
     return out
 
 
+def witnesses(rep):
+    """thorough tier: compile_fail doctests (with compiling `no_run` twins) in /verif/witnesses, against /repo's cgt-core"""
+    import os
+    import re
+    import subprocess
+    import core
+    wd = os.path.join(core.VERIF, "witnesses")
+    env = dict(os.environ, CARGO_TARGET_DIR=os.path.join(core.CACHE, "target-witness"), CARGO_NET_OFFLINE="true")
+    r = subprocess.run("cargo +nightly test --doc --offline", shell=True, cwd=wd, env=env, stdout=subprocess.PIPE, stderr=subprocess.STDOUT, text=True)
+    out = r.stdout
+    fails = re.findall(r"test (src/lib.rs - \(line \d+\) - compile fail) \.\.\. (\w+)", out)
+    twins = re.findall(r"test (src/lib.rs - \(line \d+\) - compile) \.\.\. (\w+)", out)
+    if len(fails) < 2 or len(twins) < 2:
+        raise core.Broken("witness doctests did not run: " + out[-600:])
+    for name, res in fails:
+        rep.ob("R2-witness", name, res == "ok",
+               "does not compile outside cgt_core (private constructor/field), with the expected error code" if res == "ok" else
+               "a TaxPeriod can now be built/modified from outside cgt_core without the range check: this witness compiles", "witnesses/src/lib.rs",
+               key="R2:witness:" + re.sub(r"\W+", "-", name))
+    for name, res in twins:
+        rep.ob("R2-witness", name + " (twin)", res == "ok", "compiling twin compiles" if res == "ok" else
+               "the compiling twin no longer compiles: the witness above proves nothing", "witnesses/src/lib.rs", key="R2:witness-twin:" + re.sub(r"\W+", "-", name))
+
+
 def run(ctx, rep):
     F = ctx.F
+    if rep.tier == "thorough" and ctx.root == __import__("core").REPO:
+        witnesses(rep)
     n = year_sites(F, rep)
     rep.count("year_boundary_sites", n)
     if n < 3:
